@@ -9,6 +9,7 @@ RULE = ('chains of 1-5 layers over the names x, y, z: invertible Transforms (for
         'inverts itself -, __exclude__), forward-only layers, Apply and cache layers; `_decorate(inputs, outputs, final)(f)` with '
         'str / list / None arguments on symbolic inputs; compared with CM.Model.Loopback and with the reference (forward fields in '
         'order, f, inverse fields in reverse order; each function once); missing inverse paths must be rejected with an error. '
+        'S-NODE: the EdgesBag.loopback calls made meanwhile are replayed on the node-level model CM.Model.Bag (Context.reverse, function_to_bag). '
         'Non-trivial: >= 2 layers and a value was returned; distinct by JSON')
 
 
@@ -24,6 +25,11 @@ def run(tier, seed, res, lean):
     if model_bad and not oracle_bad:
         res.violations.append(Violation('c10-correspondence', 'the real loopback and CM.Model.Loopback disagree; theorems C10.* no longer tied to the code',
                                         {'suite': 'S-CTX', 'theorems': list(lean['theorems']), **model_bad[0]}, found_input=False))
+    # node level: every EdgesBag.loopback call (connect with the function's bag, Context.reverse through the chain of contexts,
+    # the final EdgesBag) recorded on the real code and replayed on CM.Model.Bag
+    from .c02 import node_part
+    node = node_part(tier, seed + 1, res, lean, 'C10', ['ctx'], ops={'loopback'})
+    res.coverage['node_level'] = node
     res.coverage.update({
         'evaluations': stats['cases'], 'distinct_nontrivial': stats['distinct_nontrivial'], 'rule': RULE,
         'programs': stats['cases'], 'disagreements_checked': len(model_bad) + len(oracle_bad),
